@@ -193,6 +193,8 @@ func init() {
 				{Harness: "zzverif/zzh.ZZC07SpellingsStmt", Desc: "statement placement with the 9 spellings", Bounds: map[string]interface{}{"spellings": 9}},
 				{Harness: "zzverif/zzh.ZZC07RereportField", Desc: "re-reporting when the first uses of the once-per-file type are a struct field and a parameter (trailing markers, 4x3 spellings)", Bounds: map[string]interface{}{"holes": 2}},
 				{Harness: "zzverif/zzh.ZZC07Rereport", Desc: "report-time filter (IMM) and detection-time filter with once-per-file re-reporting (TONL01, PKGO01 move to the next unsuppressed use of 3), trailing and stand-alone markers, 5x4x4x4 marker spellings", Bounds: map[string]interface{}{"skeleton": "c07SrcRD + c07SrcRU", "holes": 4}},
+				{Harness: "zzverif/zzh.ZZC07Header", Desc: "file-level markers that are not the package clause's own doc: detached by a blank line + package doc, followed by a //go:build constraint, middle line of a detached header group; 10 spellings; query position = any byte offset x 7 codes: covers exactly the whole file", Bounds: map[string]interface{}{"header_shapes": 3, "spellings": 10}},
+				{Harness: "zzverif/zzh.ZZC07FuncLine", Desc: "a marker trailing the 'func' line of a multi-line function (category, ALL, specific codes) covers that line only: TONL01/02/03 in the body and after it stay", Bounds: map[string]interface{}{"spellings": 5}},
 			},
 			Outside:     []string{"more than two markers in one file at a time (placement harness)", "block comments /* @ignore */", "markers inside excluded files (C14)"},
 			Assumptions: []string{"extents of declarations/statements/lines are computed by the harness from landmarks in the skeleton source, not from the code under test"},
@@ -308,6 +310,7 @@ func init() {
 				{Harness: "analyzer.ZZC06Export", Desc: "each of the five run*Checker functions with arbitrary local annotations (every list empty or not, package-not-found flag): ExportPackageFact is called exactly once on every path, with the package's annotations, before any early return", Bounds: map[string]interface{}{"checkers": 5, "annotation_lists": "2^6 presence combinations"}},
 				{Harness: "analyzer.ZZC06Reader", Desc: "runAnnotationReader exports what it read; allow-lists travel complete and in order", Bounds: map[string]interface{}{"spellings": 4}},
 				{Harness: "zzverif/zzh.ZZC06Merge", Desc: "importer with 5 direct imports, any subset of which exports a fact (two of the facts carry annotations with arbitrary names): all six indices = local annotations + facts of the direct imports, filed under the declaring package's path", Bounds: map[string]interface{}{"imports": 5, "fact_subsets": "2^5", "names": "opaque atoms"}},
+				{Harness: "zzverif/zzh.ZZC06FactPos", Desc: "positions recorded inside facts mean nothing to an importer (every driver process has its own file set): two template-identical packages (annotations at the same byte offsets: @immutable, @constructor, @mutable field, @testonly, @packageonly) and an importer of both; its diagnostics with the in-process facts equal those with facts whose positions are all collapsed to one ARBITRARY value", Bounds: map[string]interface{}{"collapsed_pos": "[0,2^20]"}},
 				{Harness: "zzverif/zzh.ZZCrossImmCtor", Desc: "annotations of d (incl. @mutable fields, constructor lists) take effect in the importer u as in d", Bounds: map[string]interface{}{}},
 				{Harness: "zzverif/zzh.ZZC04Cross", Desc: "allow-lists take effect in the importer", Bounds: map[string]interface{}{}},
 			},
